@@ -366,7 +366,196 @@ def formulas(src):
     out.append(fit_ranges(tree))
     out.append(distort_starts(tree))
     out.append(flow_rootfinder(tree))
+    out.append(decisions(tree))
     return "\n\n".join(out) + "\n"
+
+
+# ---- decisions: comparisons, thresholds, defaults and the rules that choose a branch (round 6) ----
+
+def cmp_dec(t, node):
+    """python comparison  a < b | a > b | a <= b | a >= b  ->  Coq sumbool  {..} + {..}"""
+    if not (isinstance(node, ast.Compare) and len(node.ops) == 1 and len(node.comparators) == 1):
+        raise TranslateError("not a single comparison: %s" % ast.unparse(node))
+    a, b = t.e(node.left), t.e(node.comparators[0])
+    op = type(node.ops[0])
+    if op is ast.Lt:
+        return "(Rlt_dec %s %s)" % (a, b)
+    if op is ast.Gt:
+        return "(Rlt_dec %s %s)" % (b, a)
+    if op is ast.LtE:
+        return "(Rle_dec %s %s)" % (a, b)
+    if op is ast.GtE:
+        return "(Rle_dec %s %s)" % (b, a)
+    raise TranslateError("unsupported comparison operator in %s" % ast.unparse(node))
+
+
+def _guarded_updates(t, stmts, var, kind):
+    """[if/while COND: var OP= c] ... (no else branches)  ->  [(cond, '+'/'-', c)]"""
+    out = []
+    for st in stmts:
+        if not (isinstance(st, getattr(ast, kind)) and not st.orelse and len(st.body) == 1):
+            raise TranslateError("expected `%s cond: %s op= c` without else: %s" % (kind.lower(), var, ast.unparse(st)))
+        b = st.body[0]
+        if not (isinstance(b, ast.AugAssign) and ast.unparse(b.target) == var and type(b.op) in (ast.Add, ast.Sub)):
+            raise TranslateError("expected an update of %s: %s" % (var, ast.unparse(b)))
+        out.append((cmp_dec(t, st.test), "+" if isinstance(b.op, ast.Add) else "-", t.e(b.value)))
+    return out
+
+
+def _seq_updates(var, ups):
+    lines = ["let %s := if %s then %s %s %s else %s in" % (var, c, var, op, v, var) for c, op, v in ups]
+    return " ".join(lines) + " " + var
+
+
+def decisions(tree):
+    out = []
+    # --- image2sph: the fold of the longitude into [0, 360) and the choice r > 0
+    fn = _method(tree, "image2sph")
+    b = _body(fn)
+    ifs = [n for n in b if isinstance(n, ast.If) and ast.unparse(n.test) == "scalar"]
+    if len(ifs) != 2:
+        raise TranslateError("image2sph: expected two `if scalar:` blocks, found %d" % len(ifs))
+    t = Tr({"longitude": "longitude", "r": "r"})
+    # latitude choice
+    lat_if = ifs[0]
+    if not (len(lat_if.body) == 1 and isinstance(lat_if.body[0], ast.If) and not lat_if.body[0].orelse
+            and [ast.unparse(x) for x in lat_if.body[0].body] == ["latitude = np.arctan(1.0 / r)"]):
+        raise TranslateError("image2sph: unexpected scalar latitude block")
+    c_lat = cmp_dec(t, lat_if.body[0].test)
+    arr = lat_if.orelse
+    if not (len(arr) == 2 and isinstance(arr[0], ast.Assign) and ast.unparse(arr[0].targets[0]) == "(w,)"
+            and isinstance(arr[0].value, ast.Call) and ast.unparse(arr[0].value.func) == "np.where"
+            and cmp_dec(t, arr[0].value.args[0]) == c_lat and ast.unparse(arr[1].test) == "w.size > 0"
+            and [ast.unparse(x) for x in arr[1].body] == ["latitude[w] = np.arctan(1.0 / r[w])"]):
+        raise TranslateError("image2sph: the array branch chooses the latitude differently from the scalar branch")
+    out.append("Definition src_image2sph_latitude (r : R) : R :=\n  if %s then src_image2sph_lat r else src_image2sph_lat_pole." % c_lat)
+    # longitude fold
+    fold_if = ifs[1]
+    ups = _guarded_updates(t, fold_if.body, "longitude", "If")
+    arr = fold_if.orelse
+    ups_arr = []
+    if len(arr) % 2:
+        raise TranslateError("image2sph: unexpected array fold block")
+    for k in range(0, len(arr), 2):
+        a0, a1 = arr[k], arr[k + 1]
+        if not (isinstance(a0, ast.Assign) and ast.unparse(a0.targets[0]) == "(w,)" and isinstance(a0.value, ast.Call)
+                and ast.unparse(a0.value.func) == "np.where" and isinstance(a1, ast.If) and ast.unparse(a1.test) == "w.size > 0"
+                and not a1.orelse and len(a1.body) == 1 and isinstance(a1.body[0], ast.AugAssign)
+                and ast.unparse(a1.body[0].target) == "longitude[w]" and type(a1.body[0].op) in (ast.Add, ast.Sub)):
+            raise TranslateError("image2sph: unexpected array fold statement: %s" % ast.unparse(a0))
+        ups_arr.append((cmp_dec(t, a0.value.args[0]), "+" if isinstance(a1.body[0].op, ast.Add) else "-", t.e(a1.body[0].value)))
+    if ups_arr != ups:
+        raise TranslateError("image2sph: the array branch folds the longitude differently from the scalar branch")
+    out.append("Definition src_fold360 (longitude : R) : R :=\n  %s." % _seq_updates("longitude", ups))
+
+    # --- sph2image: the choice latitude > 0 and the value elsewhere
+    fn = _method(tree, "sph2image")
+    b = _body(fn)
+    sel = [n for n in b if isinstance(n, ast.If) and ast.unparse(n.test) == "isscalar(longitude)"]
+    if len(sel) != 1 or len(sel[0].body) != 1 or not isinstance(sel[0].body[0], ast.If) or sel[0].body[0].orelse:
+        raise TranslateError("sph2image: unexpected scalar block")
+    t = Tr({"latitude": "latitude"})
+    c_s = cmp_dec(t, sel[0].body[0].test)
+    arr = sel[0].orelse
+    if not (len(arr) == 2 and isinstance(arr[0], ast.Assign) and isinstance(arr[0].value, ast.Call)
+            and ast.unparse(arr[0].value.func) == "np.where" and cmp_dec(t, arr[0].value.args[0]) == c_s):
+        raise TranslateError("sph2image: the array branch selects differently from the scalar branch")
+    zeros = [ast.unparse(n) for n in b if isinstance(n, ast.Assign) and ast.unparse(n.targets[0]) in ("x", "y")]
+    if zeros != ["x = np.zeros_like(longitude)", "y = np.zeros_like(longitude)"]:
+        raise TranslateError("sph2image: x, y are not initialised with zeros: %s" % zeros)
+    out.append("Definition src_sph2image_sel (longitude latitude : R) : R * R :=\n"
+               "  if %s then src_sph2image longitude latitude else (0, 0)." % c_s)
+
+    # --- wrap_ra_diff: thresholds and steps of the two loops (scalar and array code must agree)
+    fns = [n for n in tree.body if isinstance(n, ast.FunctionDef) and n.name == "wrap_ra_diff"]
+    if len(fns) != 1:
+        raise TranslateError("wrap_ra_diff not found")
+    b = _body(fns[0])
+    if not (len(b) == 2 and isinstance(b[0], ast.If) and ast.unparse(b[0].test) == "np.ndim(dra) == 0"
+            and ast.unparse(b[1]) == "return dra"):
+        raise TranslateError("wrap_ra_diff has an unexpected shape")
+    sc = b[0].body
+    if not (len(sc) == 3 and ast.unparse(sc[0]) == "if not np.isfinite(dra):\n    return dra"):
+        raise TranslateError("wrap_ra_diff: unexpected scalar block")
+    t = Tr({"dra": "dra"})
+    ups = _guarded_updates(t, sc[1:], "dra", "While")
+    ar = b[0].orelse
+    want_ar = []
+    for k, (c, op, v) in enumerate(ups):
+        pass
+    txt = [ast.unparse(x) for x in ar]
+    if len(ar) != 5 or txt[0] != "msk_finite = np.isfinite(dra)":
+        raise TranslateError("wrap_ra_diff: unexpected array block")
+    ups_ar = []
+    for k in (1, 3):
+        a0, a1 = ar[k], ar[k + 1]
+        if not (isinstance(a0, ast.Assign) and ast.unparse(a0.targets[0]) == "msk" and isinstance(a0.value, ast.BinOp)
+                and isinstance(a0.value.op, ast.BitAnd) and ast.unparse(a0.value.right) == "msk_finite"
+                and isinstance(a1, ast.While) and ast.unparse(a1.test) == "np.any(msk)" and len(a1.body) == 2
+                and ast.unparse(a1.body[1]) == ast.unparse(a0)
+                and isinstance(a1.body[0], ast.Assign) and ast.unparse(a1.body[0].targets[0]) == "dra[msk]"
+                and isinstance(a1.body[0].value, ast.BinOp) and ast.unparse(a1.body[0].value.left) == "dra[msk]"
+                and type(a1.body[0].value.op) in (ast.Add, ast.Sub)):
+            raise TranslateError("wrap_ra_diff: unexpected array loop: %s" % txt[k])
+        ups_ar.append((cmp_dec(t, a0.value.left), "+" if isinstance(a1.body[0].value.op, ast.Add) else "-",
+                       t.e(a1.body[0].value.right)))
+    if ups_ar != ups:
+        raise TranslateError("wrap_ra_diff: the array code wraps differently from the scalar code")
+    out.append("(* one pass of each of the two loops of wrap_ra_diff *)\nDefinition src_wrap_once (dra : R) : R :=\n  %s." % _seq_updates("dra", ups))
+
+    # --- ExtractDistortionModel: when a header has a distortion model
+    fn = _method(tree, "ExtractDistortionModel")
+    tests = [n.test for n in ast.walk(fn) if isinstance(n, ast.If)]
+    rule = [x for x in tests if isinstance(x, ast.BoolOp)]
+    if len(rule) != 2 or ast.unparse(rule[0]) != "ca != 0 or cb != 0":
+        raise TranslateError("ExtractDistortionModel: unexpected rule %s" % [ast.unparse(x) for x in rule])
+    r0 = rule[0]
+    parts = []
+    for v in r0.values:
+        if not (isinstance(v, ast.Compare) and len(v.ops) == 1 and isinstance(v.ops[0], ast.NotEq)
+                and isinstance(v.left, ast.Name) and _const(v.comparators[0], int) == 0):
+            raise TranslateError("ExtractDistortionModel: unexpected term %s" % ast.unparse(v))
+        parts.append("negb (Nat.eqb %s 0%%nat)" % v.left.id)
+    joiner = " || " if isinstance(r0.op, ast.Or) else " && "
+    out.append("Definition src_has_distortion (ca cb : nat) : bool := (%s)%%bool." % joiner.join(parts))
+
+    # --- ExtractPVCoeffs: the default of the linear term
+    fn = _method(tree, "ExtractPVCoeffs")
+    txt = _stmts(fn)
+    m = [k for k, x in enumerate(txt) if x.startswith("indices = _scamp_map[prefix + ")]
+    if len(m) != 1 or txt[m[0] + 1][:39] != "matrix[indices[0], indices[1]] = " [:39] and False:
+        raise TranslateError("ExtractPVCoeffs: default of the linear term not found")
+    st0, st1 = _body(fn)[m[0]], _body(fn)[m[0] + 1]
+    key = st0.value.slice
+    if not (isinstance(key, ast.BinOp) and isinstance(key.op, ast.Add) and ast.unparse(key.left) == "prefix"):
+        raise TranslateError("ExtractPVCoeffs: unexpected default key %s" % ast.unparse(key))
+    suffix = _const(key.right, str)
+    if not re.fullmatch(r"_\d+", suffix):
+        raise TranslateError("ExtractPVCoeffs: unexpected default key suffix %r" % suffix)
+    if not (isinstance(st1, ast.Assign) and ast.unparse(st1.targets[0]) == "matrix[indices[0], indices[1]]"):
+        raise TranslateError("ExtractPVCoeffs: unexpected statement after the default key: %s" % ast.unparse(st1))
+    out.append("Definition src_pv_default_key : nat := %d.\nDefinition src_pv_default_value : R := %s." % (
+        int(suffix[1:]), Tr({}).e(st1.value)))
+
+    # --- GetPole (zenithal branch) and the constructor's default angles
+    fn = _method(tree, "GetPole")
+    b = _body(fn)
+    if [ast.unparse(x) for x in b[:2]] != ["longitude_0 = float(self.wcs['crval1']) * d2r", "latitude_0 = float(self.wcs['crval2']) * d2r"] \
+            or not (isinstance(b[2], ast.If) and [ast.unparse(x) for x in b[2].body] == ["return (longitude_0, latitude_0)"]
+                    and isinstance(b[2].test, ast.Compare) and ast.unparse(b[2].test.left) == "self.theta0"
+                    and isinstance(b[2].test.ops[0], ast.Eq)):
+        raise TranslateError("GetPole: unexpected zenithal branch")
+    t = Tr(dict(BASE_ENV, **{"float(self.wcs['crval1'])": "crval1", "float(self.wcs['crval2'])": "crval2"}))
+    out.append("Definition src_zenithal_theta0 : R := %s.\nDefinition src_getpole_zenithal (crval1 crval2 : R) : R * R :=\n  (%s, %s)." % (
+        Tr({}).e(b[2].test.comparators[0]), t.e(b[0].value), t.e(b[1].value)))
+    fn = _method(tree, "__init__")
+    _args(fn, ["self", "wcs", "longpole", "latpole", "theta0"])
+    d = [Tr({}).e(x) for x in fn.args.defaults]
+    if len(d) != 3:
+        raise TranslateError("WCS.__init__: unexpected defaults")
+    out.append("Definition src_default_longpole : R := %s.\nDefinition src_default_latpole : R := %s.\n"
+               "Definition src_default_theta0 : R := %s." % tuple(d))
+    return "\n\n".join(out)
 
 
 # ---- root finding: _findxy, _findxy_one, _fsolve_xy, _lonlatdiff (any added branch / fallback fails closed) ----
